@@ -1,3 +1,77 @@
-(* placeholder, replaced by the real theorems *)
-Theorem placeholder_C04 : True. Proof. exact I. Qed.
-Print Assumptions placeholder_C04.
+(* C04 — Undo returns exactly to the previous decision point; redo exactly re-applies it.
+   Property theorems only (proofs: Proofs/EngineUndo.v).  They hold for every story, every author-code
+   oracle (including code that fails at any point) and every engine state, so for every history.
+   A snapshot is the whole `core` (position, variables, used one-time choices, hook registrations,
+   @join progress and the displayed output); navigation has type core -> core by construction, so it
+   cannot touch the stacks. "Later play never alters an earlier restore point" is immediate for immutable
+   Gallina values; for the implementation it is the deepcopy discipline, carried by the correspondence run
+   with stories that mutate lists/dicts in place. *)
+From Coq Require Import String List Bool ZArith Arith.
+From Bardic Require Import PyStr Value Compiled Engine EngineBase EngineNav EngineUndo.
+Import ListNotations.
+
+(* undo after any accepted choice - whether the navigation succeeded or failed half-way - restores
+   exactly the situation before it; undo availability is unchanged and the undone state is redoable *)
+Theorem undo_choose : forall orc ctxkeys st e i,
+  valid_index e i ->
+  let e1 := fst (choose orc ctxkeys st e i) in
+  snd (undo e1) = true /\
+  ec (fst (undo e1)) = ec e /\
+  escopes (fst (undo e1)) = escopes e /\
+  undo_stack (fst (undo e1)) = firstn 49 (undo_stack e) /\
+  redo_stack (fst (undo e1)) = [ec e1].
+Proof. exact undo_choose_lemma. Qed.
+Print Assumptions undo_choose.
+
+(* redo after undo restores the undone state exactly, stacks included *)
+Theorem redo_undo : forall e,
+  wf_undo e -> undo_stack e <> [] ->
+  let e1 := fst (undo e) in
+  snd (undo e) = true /\ snd (redo e1) = true /\
+  ec (fst (redo e1)) = ec e /\ undo_stack (fst (redo e1)) = undo_stack e /\
+  redo_stack (fst (redo e1)) = redo_stack e /\ escopes (fst (redo e1)) = escopes e.
+Proof. exact redo_undo_lemma. Qed.
+Print Assumptions redo_undo.
+
+(* a new choice discards the redo history and pushes exactly one restore point (bounded by 50) *)
+Theorem choose_clears_redo : forall orc ctxkeys st e i,
+  valid_index e i ->
+  undo_stack (fst (choose orc ctxkeys st e i)) = push50 (ec e) (undo_stack e) /\
+  redo_stack (fst (choose orc ctxkeys st e i)) = [].
+Proof. exact choose_stacks. Qed.
+Print Assumptions choose_clears_redo.
+
+(* at most the 50 most recent choices can be undone: the stack never exceeds 50 (an invariant of every
+   operation), one choice adds one restore point up to that bound, one undo removes exactly one *)
+Theorem undo_depth_bound_choose : forall orc ctxkeys st e i, wf_undo e -> wf_undo (fst (choose orc ctxkeys st e i)).
+Proof. exact wf_choose. Qed.
+Print Assumptions undo_depth_bound_choose.
+Theorem undo_depth_bound_undo : forall e, wf_undo e -> wf_undo (fst (undo e)).
+Proof. exact wf_undo_op. Qed.
+Print Assumptions undo_depth_bound_undo.
+Theorem undo_depth_bound_redo : forall e, wf_undo e -> wf_undo (fst (redo e)).
+Proof. exact wf_redo_op. Qed.
+Print Assumptions undo_depth_bound_redo.
+Theorem undo_depth_bound_goto : forall orc ctxkeys st e spec, wf_undo e -> wf_undo (fst (goto_op orc ctxkeys st e spec)).
+Proof. exact wf_goto. Qed.
+Print Assumptions undo_depth_bound_goto.
+Theorem restore_points_after_choice : forall c l, List.length (push50 c l) = Nat.min (S (List.length l)) 50.
+Proof. exact push50_length. Qed.
+Print Assumptions restore_points_after_choice.
+Theorem undo_pops_one : forall e, undo_stack e <> [] ->
+  snd (undo e) = true /\ S (List.length (undo_stack (fst (undo e)))) = List.length (undo_stack e).
+Proof. exact undo_length. Qed.
+Print Assumptions undo_pops_one.
+
+(* undo/redo with nothing to do return False and change nothing *)
+Theorem undo_noop_when_empty : forall e, undo_stack e = [] -> undo e = (e, false).
+Proof. exact undo_empty. Qed.
+Print Assumptions undo_noop_when_empty.
+Theorem redo_noop_when_empty : forall e, redo_stack e = [] -> redo e = (e, false).
+Proof. exact redo_empty. Qed.
+Print Assumptions redo_noop_when_empty.
+
+(* non-vacuity: a state with an offered choice exists for a concrete story (see Props/C02.v for the
+   story); here: the hypotheses of redo_undo are met by any state after one push *)
+Example wf_after_push : forall c, wf_undo (mkES c (push50 c []) [] [] []) /\ push50 c [] <> [].
+Proof. intros c. split; [unfold wf_undo, MAXUNDO; simpl; repeat constructor|discriminate]. Qed.
